@@ -107,7 +107,8 @@ fn find_fn<'r>(reg: &'r Registry, t: &Target) -> R<(&'r syn::Signature, &'r syn:
 }
 
 fn has_cfg(attrs: &[syn::Attribute]) -> bool {
-    attrs.iter().any(|a| a.path().is_ident("cfg") || a.path().is_ident("cfg_attr"))
+    // `#[cfg(feature = "likelysubtags")]` items exist in the configuration the targets are translated for
+    attrs.iter().any(|a| (a.path().is_ident("cfg") && norm_tokens(a).replace(' ', "") != "#[cfg(feature=\"likelysubtags\")]") || a.path().is_ident("cfg_attr"))
 }
 
 fn norm_ws(s: &str) -> String {
@@ -160,6 +161,10 @@ fn translate_one(
         outs: Vec::new(),
         self_out: None,
         ret_unit: false,
+        plain_res: false,
+        uses_t: false,
+        uses_l: false,
+        features: config::features_of(t.lean),
     };
     if let Some(i) = t.imp {
         if let Some((_, x)) = i.split_once(" for ") {
@@ -207,9 +212,8 @@ fn bound_name(b: &syn::TypeParamBound) -> Option<(String, Vec<String>)> {
 
 fn translate_fn(tr: &mut Tr, sig: &syn::Signature, block: &syn::Block) -> R<(String, FnSig)> {
     let t = tr.target;
-    if sig.unsafety.is_some() {
-        return Err("`unsafe fn`".into());
-    }
+    // (`unsafe fn`: what the function computes is translated; the contracts of the unsafe operations it uses are in the
+    // translator's table)
     if sig.asyncness.is_some() {
         return Err("`async fn`".into());
     }
@@ -343,9 +347,15 @@ fn translate_fn(tr: &mut Tr, sig: &syn::Signature, block: &syn::Block) -> R<(Str
         }
     };
     let atom = |s: &String| if s.contains(' ') { format!("({})", s) } else { s.clone() };
+    // a plain result type whose model definition returns `Res`: the body may panic (`.unwrap()`, table indexing)
+    let want_res = t.model_type.rsplit('→').next().map(|x| x.trim().starts_with("Res ")).unwrap_or(false);
     let (mode, inner) = match &ret {
         Ty::ResPE(x) => (Mode::Res, (**x).clone()),
         Ty::ResOpaque(_) => return Err("result type `Result<_, E>` with an error type that is not ParserError".into()),
+        other if want_res => {
+            tr.plain_res = true;
+            (Mode::Res, other.clone())
+        }
         other => (Mode::Pure, other.clone()),
     };
     tr.ret_unit = matches!(inner, Ty::Unit | Ty::FmtRes);
@@ -363,15 +373,8 @@ fn translate_fn(tr: &mut Tr, sig: &syn::Signature, block: &syn::Block) -> R<(Str
     let tuple_ty = if parts.len() == 1 { parts[0].clone() } else { parts.iter().map(atom).collect::<Vec<_>>().join(" × ") };
     let ret_lean = if mode == Mode::Res { format!("Res {}", atom(&tuple_ty)) } else { tuple_ty };
     tr.mode = mode;
-    tr.ret_ty = ret.clone();
-    // ---- the Lean type must be the model's
-    let mut parts: Vec<String> = params.iter().map(|(_, t)| if t.contains('→') { format!("({})", t) } else { t.clone() }).collect();
-    parts.push(ret_lean.clone());
-    let lean_type = parts.join(" → ");
-    let strip = |x: &str| norm_ws(&x.replace('(', " ").replace(')', " "));
-    if strip(&lean_type) != strip(t.model_type) {
-        return Err(format!("the signature gives the Lean type `{}`, the model definition {} has `{}`", lean_type, t.model, t.model_type));
-    }
+    tr.ret_ty = if tr.plain_res { Ty::ResPE(Box::new(ret.clone())) } else { ret.clone() };
+    let ret = tr.ret_ty.clone();
     // ---- body
     // first pass: only to learn the types of variables declared as `None` / `vec![]`
     tr.first_pass = true;
@@ -388,6 +391,20 @@ fn translate_fn(tr: &mut Tr, sig: &syn::Signature, block: &syn::Block) -> R<(Str
     tr.decl_site.clear();
     tr.pure_only = 0;
     let body = tr.tr_block(&block.stmts, &env, true, &|me: &mut Tr, v: Val, env1: &Env| me.k_ret(v, env1))?;
+    if tr.uses_l {
+        params.insert(0, ("L".to_string(), "Layout".to_string()));
+    }
+    if tr.uses_t {
+        params.insert(0, ("T".to_string(), "Tables".to_string()));
+    }
+    // ---- the Lean type must be the model's
+    let mut parts: Vec<String> = params.iter().map(|(_, t)| if t.contains('→') { format!("({})", t) } else { t.clone() }).collect();
+    parts.push(ret_lean.clone());
+    let lean_type = parts.join(" → ");
+    let strip = |x: &str| norm_ws(&x.replace('(', " ").replace(')', " "));
+    if strip(&lean_type) != strip(t.model_type) {
+        return Err(format!("the signature gives the Lean type `{}`, the model definition {} has `{}`", lean_type, t.model, t.model_type));
+    }
     let binders: Vec<String> = params.iter().map(|(n, t)| format!("({} : {})", n, t)).collect();
     let rust = match t.imp {
         Some(i) => format!("{}::{}", i, t.func),
@@ -411,12 +428,15 @@ fn translate_fn(tr: &mut Tr, sig: &syn::Signature, block: &syn::Block) -> R<(Str
     );
     let fsig = FnSig {
         lean: t.lean.to_string(),
-        params: params.iter().map(|(_, t)| t.clone()).collect(),
+        params: params.iter().filter(|(n, _)| n != "T" && n != "L").map(|(_, t)| t.clone()).collect(),
         ret,
         mode,
         iter_param,
         mut_self,
         ret_unit: tr.ret_unit,
+        plain_res: tr.plain_res,
+        uses_t: tr.uses_t,
+        uses_l: tr.uses_l,
     };
     Ok((text, fsig))
 }
@@ -478,6 +498,39 @@ def vecInsert {α : Type} (v : List α) (i : Nat) (x : α) : Res (List α) :=
 def vecRemove {α : Type} (v : List α) (i : Nat) : Res (α × List α) :=
   match v[i]? with
   | some x => Res.ok (x, v.eraseIdx i)
+  | none => Res.panic
+"#;
+
+const LIKELY_PRELUDE: &str = r#"/-! ### Contracts of the generated tables (`likelysubtags/tables.rs`, `layout_table.rs`) as the translation uses them.
+The tables themselves are the parameters `T : Tables`, `L : Layout` of the model; their content is read from the compiled
+crate on every run (`Gen/Tables.lean`).  A row's value `(Option<u64>, Option<u32>, Option<u32>)` is stored by the table
+translator as three numbers with `0 = None`, `n + 1 = Some(n)` (`optOf`). -/
+
+/-- `TABLE.binary_search_by_key(&k, |(key, _)| key).ok()`: the index found by the toolchain's algorithm (`bsLoopA`). -/
+def tblSearch1 (a : Array Row1) (k : Nat) : Option Nat :=
+  if a.size == 0 then none
+  else
+    let base := bsLoopA a (fun x => cmpNat k x.k == 2) a.size 0 a.size
+    match a[base]? with
+    | some x => if cmpNat k x.k == 1 then some base else none
+    | none => none
+/-- `TABLE.binary_search_by_key(&(&k1, &k2), |(a, b, _)| (a, b)).ok()` -/
+def tblSearch2 (a : Array Row2) (k1 k2 : Nat) : Option Nat :=
+  if a.size == 0 then none
+  else
+    let base := bsLoopA a (fun x => cmpPair k1 k2 x.k1 x.k2 == 2) a.size 0 a.size
+    match a[base]? with
+    | some x => if cmpPair k1 k2 x.k1 x.k2 == 1 then some base else none
+    | none => none
+/-- `TABLE[i]` of a one-key table: panics out of range. -/
+def tblRow1 (a : Array Row1) (i : Nat) : Res (Nat × (Option Nat × Option Nat × Option Nat)) :=
+  match a[i]? with
+  | some r => Res.ok (r.k, (optOf r.l, optOf r.s, optOf r.r))
+  | none => Res.panic
+/-- `TABLE[i]` of a two-key table: panics out of range. -/
+def tblRow2 (a : Array Row2) (i : Nat) : Res (Nat × Nat × (Option Nat × Option Nat × Option Nat)) :=
+  match a[i]? with
+  | some r => Res.ok (r.k1, r.k2, (optOf r.l, optOf r.s, optOf r.r))
   | none => Res.panic
 "#;
 
@@ -564,6 +617,10 @@ fn main() {
         s.push_str("\nset_option linter.unusedVariables false\n\nnamespace UL.Src\n\n");
         if m.prelude {
             s.push_str(PRELUDE);
+            s.push('\n');
+        }
+        if m.name == "SrcLikely" {
+            s.push_str(LIKELY_PRELUDE);
             s.push('\n');
         }
         for (t, o) in &outcomes {
